@@ -756,14 +756,15 @@ class NestedApply(Contract):
     the enclosing pipeline's older value of the same key (later writes win, as everywhere in a pipeline)"""
     id = "C13.NestedProcessingTransformation.apply"
     target = "sigma.processing.transformations.meta:NestedProcessingTransformation.apply"
-    props = ("C13", "C12", "C14")
+    props = ("C13", "C12", "C14", "C10")
+    cases = ("sigma.rule.rule:SigmaRule", "sigma.correlations:SigmaCorrelationRule")        # field tracking also comes from the group-by / alias / condition fields of correlation rules
     assumed = ["the nested pipeline's apply() and FieldMappingTracking.merge are abstract here; concrete small containers"]
 
     def setup(self, E):
         E.summaries[f"sigma.processing.transformations.base:PreprocessingTransformation.apply"] = lambda I, so, a, k: None
         E.summaries[f"sigma.processing.transformations.base:Transformation.apply"] = lambda I, so, a, k: None
 
-    def args(self, I):
+    def args(self, I, case):
         idx = I.E.index
         v = {n: I.fresh(n, "str") for n in ("outer_k", "outer_only", "nested_k", "nested_only")}
         merged = []
@@ -777,7 +778,7 @@ class NestedApply(Contract):
         nested = SObj("Pipeline", {"apply": NativeFn("apply", napply), "applied": [False, True], "applied_ids": {"n1", "n2"}, "field_name_applied_ids": {"fn"}, "field_mappings": fm_nested,
                                    "state": {"k": v["nested_k"], "only_nested": v["nested_only"]}})
         me = SObj(idx.lookup("sigma.processing.transformations.meta:NestedProcessingTransformation"), {"_pipeline": outer, "_nested_pipeline": nested}, lazy=True)
-        rule = SObj(idx.lookup("sigma.rule.rule:SigmaRule"), {}, lazy=True)
+        rule = SObj(idx.lookup(case), {}, lazy=True)
         return {"self": me, "args": [rule], "outer": outer, "nested": nested, "v": v, "merged": merged, "ran": ran, "rule": rule, "fm_nested": fm_nested}
 
     def post(self, I, inp, r):
